@@ -38,6 +38,7 @@ EXT_FUNCS = {
     'multiprocessing.connection.wait': [],              # waits on valid handles only (assumption)
     'signal.signal': [],
     'time.sleep': [],
+    '__pwsa_inlined__': [],                              # marker left by the loader where a private helper was inlined: a call (landing point), raises nothing itself
 }
 
 # --- methods by name; disambiguated by arity / receiver hints --------------------------------------
